@@ -4,8 +4,8 @@ import os
 from pathlib import Path
 import re
 from typing import (
-        Any, AnyStr, Callable, cast, Dict, IO, List, overload, TypeVar, Union
-        )  # noqa
+        Any, AnyStr, Callable, cast, Dict, IO, List, overload, Set, TypeVar,
+        Union)  # noqa
 from typing_extensions import ClassVar, Type    # noqa
 
 import yaml
@@ -49,6 +49,8 @@ class Loader(yaml.SafeLoader):
         self.__patch_bools()
         self.__recognizer = Recognizer(
                 self._registered_classes, self._additional_classes)
+        # ids of the nodes currently being processed, to detect cycles
+        self.__in_progress = set()      # type: Set[int]
 
     def get_single_node(self) -> yaml.Node:
         """Hook used when loading a single document.
@@ -155,6 +157,23 @@ class Loader(yaml.SafeLoader):
         """
         logger.info('Processing node {} expecting type {}'.format(
             node, expected_type))
+
+        if id(node) in self.__in_progress:
+            raise RecognitionError(
+                    '{}\nThis node contains itself via an alias, which is not'
+                    ' supported.'.format(node.start_mark))
+        self.__in_progress.add(id(node))
+        try:
+            return self.__process_node_checked(node, expected_type)
+        finally:
+            self.__in_progress.discard(id(node))
+
+    def __process_node_checked(self, node: yaml.Node,
+                               expected_type: Type) -> yaml.Node:
+        """Processes a node that is known not to contain itself.
+
+        See :meth:`__process_node`.
+        """
 
         # figure out how to interpret this node
         try:
